@@ -67,6 +67,8 @@ pub struct RunOpts {
     pub dump_after_commit: bool,
     /// file bytes must be unchanged by rollbacks, read txs, open/close (C06)
     pub bytes_unchanged: bool,
+    /// after a call that returned an error, dump the whole transaction and compare (C06)
+    pub dump_after_error: bool,
     pub final_reopen: bool,
     /// scratch file path
     pub path: PathBuf,
@@ -85,6 +87,7 @@ impl RunOpts {
             dbcheck_after_commit: true,
             dump_after_commit: true,
             bytes_unchanged: false,
+            dump_after_error: false,
             final_reopen: true,
             path,
             keep_file: false,
@@ -103,6 +106,9 @@ pub struct CaseStats {
     pub big_rollbacks: u64,
     pub read_txs: u64,
     pub ro_mutator_attempts: u64,
+    /// bit set of mutator kinds attempted on read-only transactions in one of them (max over read txs)
+    pub ro_mutator_kinds: u32,
+    pub dumps_after_error: u64,
     pub reopens: u64,
     pub reopen_mid: bool,
     pub rollback_then_commit: bool,
@@ -337,6 +343,7 @@ pub struct TxCtx<'b, 'tx, 'r> {
     pub touched: Vec<Path>,
     pub tx_deleted: bool,
     pub tx_inserted: bool,
+    pub ro_kinds: u32,
 }
 
 fn resolve_key(m: &MBucket, k: &KeySel) -> Vec<u8> {
@@ -1027,7 +1034,7 @@ pub fn exec_op<'b, 'tx, 'r>(ctx: &mut TxCtx<'b, 'tx, 'r>, op: &Op, work: &mut MB
                 let mb = work.bucket_mut(&p).unwrap();
                 mb.put(&key, &val)
             } else {
-                ctx.stats.ro_mutator_attempts += 1;
+                ctx.stats.ro_mutator_attempts += 1; ctx.ro_kinds |= 1;
                 Err(MErr::ReadOnlyTx)
             };
             match (&got, &exp) {
@@ -1083,7 +1090,7 @@ pub fn exec_op<'b, 'tx, 'r>(ctx: &mut TxCtx<'b, 'tx, 'r>, op: &Op, work: &mut MB
             let exp = if w {
                 work.bucket_mut(&p).unwrap().delete(&key)
             } else {
-                ctx.stats.ro_mutator_attempts += 1;
+                ctx.stats.ro_mutator_attempts += 1; ctx.ro_kinds |= 2;
                 Err(MErr::ReadOnlyTx)
             };
             match (&got, &exp) {
@@ -1117,7 +1124,7 @@ pub fn exec_op<'b, 'tx, 'r>(ctx: &mut TxCtx<'b, 'tx, 'r>, op: &Op, work: &mut MB
                 let exp = if w {
                     work.bucket_mut(&p).unwrap().put(&key, &val)
                 } else {
-                    ctx.stats.ro_mutator_attempts += 1;
+                    ctx.stats.ro_mutator_attempts += 1; ctx.ro_kinds |= 1;
                     Err(MErr::ReadOnlyTx)
                 };
                 let what = format!("put_run({}{})", path_str(&p), hex(&key));
@@ -1160,7 +1167,7 @@ pub fn exec_op<'b, 'tx, 'r>(ctx: &mut TxCtx<'b, 'tx, 'r>, op: &Op, work: &mut MB
                 let exp = if w {
                     work.bucket_mut(&p).unwrap().delete(&key)
                 } else {
-                    ctx.stats.ro_mutator_attempts += 1;
+                    ctx.stats.ro_mutator_attempts += 1; ctx.ro_kinds |= 2;
                     Err(MErr::ReadOnlyTx)
                 };
                 let what = format!("delete_run({}{})", path_str(&p), hex(&key));
@@ -1198,7 +1205,7 @@ pub fn exec_op<'b, 'tx, 'r>(ctx: &mut TxCtx<'b, 'tx, 'r>, op: &Op, work: &mut MB
                     if w {
                         work.bucket_mut(&p).unwrap().create_bucket(&key)
                     } else {
-                        ctx.stats.ro_mutator_attempts += 1;
+                        ctx.stats.ro_mutator_attempts += 1; ctx.ro_kinds |= if p.is_empty() { 8 } else { 4 };
                         Err(MErr::ReadOnlyTx)
                     },
                 ),
@@ -1207,7 +1214,7 @@ pub fn exec_op<'b, 'tx, 'r>(ctx: &mut TxCtx<'b, 'tx, 'r>, op: &Op, work: &mut MB
                     if w {
                         work.bucket_mut(&p).unwrap().get_or_create_bucket(&key)
                     } else {
-                        ctx.stats.ro_mutator_attempts += 1;
+                        ctx.stats.ro_mutator_attempts += 1; ctx.ro_kinds |= if p.is_empty() { 32 } else { 16 };
                         Err(MErr::ReadOnlyTx)
                     },
                 ),
@@ -1258,7 +1265,7 @@ pub fn exec_op<'b, 'tx, 'r>(ctx: &mut TxCtx<'b, 'tx, 'r>, op: &Op, work: &mut MB
             let key = resolve_key(work.bucket(&p).unwrap(), k);
             let exp = ro(Ok(())).and_then(|_| work.bucket_mut(&p).unwrap().delete_bucket(&key));
             if !w {
-                ctx.stats.ro_mutator_attempts += 1;
+                ctx.stats.ro_mutator_attempts += 1; ctx.ro_kinds |= if p.is_empty() { 128 } else { 64 };
             }
             let what = format!("delete_bucket({}{})", path_str(&p), hex(&key));
             let mut np = p.clone();
@@ -1412,6 +1419,7 @@ pub fn run_tx(
     opts: &RunOpts,
     stats: &mut CaseStats,
     op_at: &mut Option<usize>,
+    after_ops: Option<&mut dyn FnMut(&mut TxCtx, &MBucket) -> Result<(), Failure>>,
 ) -> Result<bool, Failure> {
     let writable = spec.kind != TxKind::Read;
     let arena = Bump::new();
@@ -1431,11 +1439,21 @@ pub fn run_tx(
             touched: Vec::new(),
             tx_deleted: false,
             tx_inserted: false,
+            ro_kinds: 0,
         };
         for (oi, op) in spec.ops.iter().enumerate() {
             *op_at = Some(oi);
             ctx.touched.clear();
+            let errs_before = ctx.stats.err_returns;
             exec_op(&mut ctx, op, work)?;
+            if opts.dump_after_error && ctx.stats.err_returns > errs_before {
+                // a call that returned an error must have changed nothing
+                let d = dump_tx(ctx.tx).map_err(|s| Failure::new("scan", format!("in-tx dump after an erroring call: {}", s)))?;
+                if let Some(df) = diff(work, &d, &mut vec![], false) {
+                    return Err(Failure::new("err_changed", format!("after a call that returned an error the transaction's view changed: {}", df)));
+                }
+                ctx.stats.dumps_after_error += 1;
+            }
             if opts.full_check_every_op {
                 // touched buckets and their ancestors
                 let mut todo: Vec<Path> = Vec::new();
@@ -1463,8 +1481,18 @@ pub fn run_tx(
                 }
             }
         }
+        if let Some(f) = after_ops {
+            f(&mut ctx, work)?;
+        }
         tx_deleted |= ctx.tx_deleted;
         tx_inserted |= ctx.tx_inserted;
+        if !writable {
+            // commit is attempted below on every read-only transaction
+            let kinds = ctx.ro_kinds | 256;
+            if kinds.count_ones() > ctx.stats.ro_mutator_kinds.count_ones() {
+                ctx.stats.ro_mutator_kinds = kinds;
+            }
+        }
     }
     *op_at = None;
     if tx_deleted && tx_inserted && stats.max_height >= 2 {
@@ -1597,7 +1625,7 @@ fn run_history_inner(case: &HistoryCase, opts: &RunOpts, stats: &mut CaseStats, 
                 let mut op_at = None;
                 let dbr = db.as_ref().unwrap();
                 let n_mut = spec.ops.iter().filter(|o| o.is_mutation()).count();
-                let r = catch(|| run_tx(dbr, spec, case.fresh_handles, &mut work, opts, stats, &mut op_at));
+                let r = catch(|| run_tx(dbr, spec, case.fresh_handles, &mut work, opts, stats, &mut op_at, None));
                 let committed = match r {
                     Err(p) => return Err(Failure::from_panic(p).at(ti, op_at)),
                     Ok(Err(f)) => return Err(f.at(ti, op_at)),
